@@ -132,6 +132,32 @@ def run_tlc(spec_dir, module, cfg, name, workers=8, timeout=600, extra=(), env=N
     return res
 
 
+def rank_times(order):
+    """Rank encoding of the real times of one execution (ascending list of distinct values): even
+    numbers in time order (odd numbers are left for unrecorded times in the gaps)."""
+    return {v: 2 * i for i, v in enumerate(order)}
+
+
+def snap_backward_rounding(events, keys=("t", "lo")):
+    """A returned state time that lies below the previous returned state time by less than the
+    resolution of the integrators' own time arithmetic (1e-12 relative; CPodes itself treats
+    closer times as 'too close' to tell apart) is the same instant computed with a last-bit
+    difference (root-finding arithmetic), not time running backwards: snap it onto the earlier
+    value before the times are ranked.  Larger decreases are left alone and are violations."""
+    cur = None
+    for e in events:
+        if e.get("e") != "Ret" or not isinstance(e.get("t"), (int, float)):
+            continue
+        t = float(e["t"])
+        if cur is not None and t < cur and cur - t <= 1e-12 * max(1.0, abs(cur)):
+            for k in keys:
+                if k in e and isinstance(e[k], (int, float)) and float(e[k]) == t:
+                    e[k] = cur
+            t = cur
+        cur = t
+    return events
+
+
 def tla_strings(out, prefix):
     """Lines printed by PrintT(<string>) come out as a quoted TLA+ string; return the payloads
     that start with prefix."""
